@@ -323,3 +323,349 @@ Proof.
   rewrite (feqb_spec _ _ Fa fhalf_fin), Va, Vd, fhalf_val.
   rewrite Req_bool_false; [reflexivity|]. lra.
 Qed.
+
+(* ------------------------------------------------------------------------- *)
+(* rounding error of one operation *)
+
+Lemma RN_err : forall (x : R) (e : Z), -1021 <= e -> (Rabs x < bpow radix2 e)%R ->
+  (Rabs (RN x - x) <= bpow radix2 (e - 54))%R.
+Proof.
+  intros x e He Hx.
+  destruct (Req_dec x 0) as [->|Nx].
+  - rewrite round_0 by apply valid_rnd_N. rewrite Rminus_0_r, Rabs_R0. apply bpow_ge_0.
+  - eapply Rle_trans. apply error_le_half_ulp. apply FLT_exp_valid. reflexivity.
+    assert (Hu : (ulp radix2 (SpecFloat.fexp prec emax) x <= bpow radix2 (e - 53))%R).
+    { rewrite ulp_neq_0 by assumption. apply bpow_le. unfold cexp, SpecFloat.fexp, SpecFloat.emin, prec, emax.
+      assert (mag radix2 x <= e)%Z by (apply mag_le_bpow; auto). lia. }
+    replace (bpow radix2 (e - 54)) with (/ 2 * bpow radix2 (e - 53))%R.
+    + apply Rmult_le_compat_l; lra.
+    + replace (e - 54) with (-1 + (e - 53)) by lia. rewrite bpow_plus. simpl. lra.
+Qed.
+
+Lemma int_of_float_int : forall f z, fin f -> FR f = IZR z -> int_of_float f = Ok z.
+Proof. intros f z Ff V. rewrite (int_of_float_spec f Ff), V, Ztrunc_IZR. reflexivity. Qed.
+
+Lemma bpow_m34 : (bpow radix2 (-34) <= 1 / 128)%R.
+Proof. change (bpow radix2 (-34)) with (/ IZR (Zpower_pos 2 34))%R. simpl. lra. Qed.
+
+(* fp * 1e6 (or 1e6 * fp) for |fp| < 1, when x*1e6 is within 31/64 of the integer n and
+   fp = x - ip: the product is within 63/128 of j = n - ip*10^6, and |j| <= 10^6 *)
+Lemma frac_scaled_near : forall (X : R) (ip n : Z) (fp : PrimFloat.float), fin fp ->
+  FR fp = (X - IZR ip)%R -> (Rabs (X - IZR ip) < 1)%R ->
+  (Rabs (X * 1000000 - IZR n) <= 31 / 64)%R ->
+  let j := n - ip * 1000000 in
+  Z.abs j <= 1000000 /\
+  fin (fp * f1e6)%float /\ (Rabs (FR (fp * f1e6)%float - IZR j) <= 63 / 128)%R /\
+  fin (f1e6 * fp)%float /\ (Rabs (FR (f1e6 * fp)%float - IZR j) <= 63 / 128)%R.
+Proof.
+  intros X ip n fp Ffp Vfp Hfp Hn j.
+  set (y := ((X - IZR ip) * 1000000)%R).
+  assert (Yj : (y - IZR j = X * 1000000 - IZR n)%R).
+  { unfold y, j. rewrite minus_IZR, mult_IZR. simpl. ring. }
+  assert (Yb : (Rabs y < 1000000)%R).
+  { unfold y. rewrite Rabs_mult. rewrite (Rabs_pos_eq 1000000) by lra.
+    assert (0 <= Rabs (X - IZR ip))%R by apply Rabs_pos. nra. }
+  assert (Yb' : (Rabs y < bpow radix2 20)%R).
+  { eapply Rlt_trans; [exact Yb|]. change (bpow radix2 20) with (IZR (Zpower_pos 2 20)). simpl. lra. }
+  pose proof (RN_err y 20 ltac:(lia) Yb') as E. change (20 - 54) with (-34) in E.
+  pose proof bpow_m34 as M.
+  assert (Hj : Z.abs j <= 1000000).
+  { assert (Z.abs j < 1000000 + 1); [|lia]. apply lt_IZR. rewrite abs_IZR.
+    replace (IZR j) with (y - (y - IZR j))%R by ring. rewrite Yj.
+    eapply Rle_lt_trans; [apply Rabs_triang|]. rewrite Rabs_Ropp. simpl. lra. }
+  assert (Near : (Rabs (RN y - IZR j) <= 63 / 128)%R).
+  { replace (RN y - IZR j)%R with ((RN y - y) + (y - IZR j))%R by ring.
+    eapply Rle_trans; [apply Rabs_triang|]. rewrite Yj. lra. }
+  assert (Bd : (Rabs (RN y) < bpow radix2 64)%R).
+  { replace (RN y) with ((RN y - y) + y)%R by ring. eapply Rle_lt_trans; [apply Rabs_triang|].
+    eapply Rlt_trans; [|apply (bpow_lt radix2 21 64); lia].
+    change (bpow radix2 21) with (IZR (Zpower_pos 2 21)). simpl. lra. }
+  split; [exact Hj|].
+  destruct (fmul_spec fp f1e6 Ffp f1e6_fin) as [F1 V1].
+  { rewrite Vfp, f1e6_val. exact Bd. }
+  destruct (fmul_spec f1e6 fp f1e6_fin Ffp) as [F2 V2].
+  { rewrite Vfp, f1e6_val, Rmult_comm. exact Bd. }
+  rewrite Vfp, f1e6_val in V1, V2. rewrite Rmult_comm in V2. fold y in V1, V2.
+  rewrite V1, V2. repeat split; assumption.
+Qed.
+
+(* ------------------------------------------------------------------------- *)
+(* datetime.fromtimestamp: any float within 31/64 us of an integer microsecond count n
+   decodes to n *)
+
+Theorem fromtimestamp_near : forall t n, fin t ->
+  min_sec * 1000000 <= n <= max_sec * 1000000 + 999999 ->
+  (Rabs (FR t * 1000000 - IZR n) <= 31 / 64)%R ->
+  fromtimestamp_us t = Ok n.
+Proof.
+  intros t n Ft Hr Hn. set (T := FR t) in *.
+  assert (TB : (Rabs T < IZR (2 ^ 53))%R).
+  { assert (A : (Rabs (T * 1000000) <= Rabs (IZR n) + 31 / 64)%R).
+    { replace (T * 1000000)%R with ((T * 1000000 - IZR n) + IZR n)%R by ring.
+      eapply Rle_trans; [apply Rabs_triang|]. lra. }
+    rewrite Rabs_mult, (Rabs_pos_eq 1000000) in A by lra.
+    assert (N : (Rabs (IZR n) <= 253402300799999999)%R).
+    { rewrite <- abs_IZR. apply IZR_le. unfold min_sec, max_sec in Hr. lia. }
+    change (IZR (2 ^ 53)) with 9007199254740992%R. lra. }
+  destruct (modf_spec t Ft TB) as (fp & Em & Ffp & Vfp). fold T in Em, Vfp.
+  set (ip := Ztrunc T) in *.
+  destruct (Ztrunc_bounds T) as (_ & B2 & _). fold ip in B2.
+  destruct (frac_scaled_near T ip n fp Ffp Vfp B2 Hn) as (Hj & F1 & N1 & _ & _).
+  set (j := n - ip * 1000000) in *.
+  unfold fromtimestamp_us. rewrite Em. cbn [bind fst snd].
+  rewrite (round_half_even_near _ j F1 ltac:(lia) N1).
+  destruct (of_Z_spec j ltac:(lia)) as [Fj Vj].
+  rewrite (fleb_spec _ _ f1e6_fin Fj), f1e6_val, Vj.
+  assert (R64 : forall z, Z.abs z <= 3000000 -> (Rabs (RN (IZR z)) < bpow radix2 64)%R).
+  { intros z Hz. rewrite RN_IZR by lia. eapply Rlt_trans; [apply Rabs_IZR_lt with (n := 2 ^ 53); lia|].
+    change (IZR (2 ^ 53)) with (IZR (Zpower radix2 53)). rewrite IZR_Zpower by lia. apply bpow_lt. lia. }
+  assert (Fin : forall sec us, sec * 1000000 + us = n -> 0 <= us < 1000000 ->
+            (if (sec <? - 2 ^ 63) || (2 ^ 63 <=? sec) then Err OtherError
+             else if (sec <? min_sec) || (max_sec <? sec) then
+               if Z.abs sec <? 67000000000000000 then Err ValueError else Err OtherError
+             else Ok (sec * us_per_s + us)) = Ok n).
+  { intros sec us E U. unfold min_sec, max_sec in *.
+    assert (S : -62135596800 <= sec <= 253402300799) by lia.
+    replace ((sec <? - 2 ^ 63) || (2 ^ 63 <=? sec)) with false
+      by (symmetry; apply orb_false_iff; split; [apply Z.ltb_ge | apply Z.leb_gt]; lia).
+    replace ((sec <? -62135596800) || (253402300799 <? sec)) with false
+      by (symmetry; apply orb_false_iff; split; apply Z.ltb_ge; lia).
+    unfold us_per_s. now rewrite E. }
+  destruct (Rle_bool_spec 1000000 (IZR j)) as [H|H].
+  - assert (j = 1000000) by (apply le_IZR in H; lia).
+    destruct (fsub_spec (of_Z j) f1e6 Fj f1e6_fin) as [Fs Vs].
+    { rewrite Vj, f1e6_val, <- minus_IZR. apply R64. lia. }
+    rewrite Vj, f1e6_val, <- minus_IZR, RN_IZR in Vs by lia.
+    rewrite (int_of_float_int _ _ Fs Vs). cbn [bind fst snd]. apply Fin; lia.
+  - assert (j < 1000000) by (apply lt_IZR; exact H).
+    rewrite (fltb_spec _ _ Fj zero_fin), Vj, zero_val.
+    destruct (Rlt_bool_spec (IZR j) 0) as [H'|H'].
+    + assert (j < 0) by (apply lt_IZR; exact H').
+      destruct (fadd_spec (of_Z j) f1e6 Fj f1e6_fin) as [Fs Vs].
+      { rewrite Vj, f1e6_val, <- plus_IZR. apply R64. lia. }
+      rewrite Vj, f1e6_val, <- plus_IZR, RN_IZR in Vs by lia.
+      rewrite (int_of_float_int _ _ Fs Vs). cbn [bind fst snd]. apply Fin; lia.
+    + assert (0 <= j) by (apply le_IZR; exact H').
+      rewrite (int_of_float_int _ _ Fj Vj). cbn [bind fst snd]. apply Fin; lia.
+Qed.
+
+(* ------------------------------------------------------------------------- *)
+(* int / 10**6: the correctly rounded quotient, scaled back, is within 31/64 of n *)
+
+Lemma bpow_m21_scaled : (bpow radix2 (-21) * 1000000 <= 31 / 64)%R.
+Proof. change (bpow radix2 (-21)) with (/ IZR (Zpower_pos 2 21))%R. simpl. lra. Qed.
+
+Theorem div_1e6_near : forall n, Z.abs n < 2 ^ 33 * 1000000 ->
+  exists t, fdiv_int_int n 1000000 = Ok t /\ fin t /\
+            FR t = RN (IZR n / 1000000) /\
+            (Rabs (FR t * 1000000 - IZR n) <= 31 / 64)%R.
+Proof.
+  intros n Hn. unfold fdiv_int_int.
+  change (1000000 =? 0) with false. cbv iota.
+  assert (T : (Z.abs n <=? two53) && (Z.abs 1000000 <=? two53) = true).
+  { apply andb_true_iff. split; apply Z.leb_le; unfold two53; simpl Z.abs; lia. }
+  rewrite T. eexists. split; [reflexivity|].
+  destruct (of_Z_spec n ltac:(lia)) as [Fn Vn].
+  set (x := (IZR n / 1000000)%R).
+  assert (Xb : (Rabs x < bpow radix2 33)%R).
+  { unfold x, Rdiv. rewrite Rabs_mult, (Rabs_pos_eq (/ 1000000)) by lra.
+    assert (Rabs (IZR n) < IZR (2 ^ 33 * 1000000))%R by (apply Rabs_IZR_lt; exact Hn).
+    change (bpow radix2 33) with (IZR (Zpower_pos 2 33)). rewrite mult_IZR in H. simpl in *. lra. }
+  pose proof (RN_err x 33 ltac:(lia) Xb) as E. change (33 - 54) with (-21) in E.
+  pose proof bpow_m21_scaled as M.
+  assert (Pm : (0 < bpow radix2 (-21))%R) by apply bpow_gt_0.
+  destruct (fdiv_spec (of_Z n) f1e6 Fn f1e6_fin) as [Fd Vd].
+  - rewrite f1e6_val. lra.
+  - rewrite Vn, f1e6_val. fold x.
+    replace (RN x) with ((RN x - x) + x)%R by ring. eapply Rle_lt_trans; [apply Rabs_triang|].
+    eapply Rlt_trans; [|apply (bpow_lt radix2 34 64); lia].
+    change (bpow radix2 34) with (2 * bpow radix2 33)%R.
+    assert (bpow radix2 (-21) < bpow radix2 33)%R by (apply bpow_lt; lia). lra.
+  - rewrite Vn, f1e6_val in Vd. fold x in Vd. unfold f1e6 in Vd, Fd.
+    split; [exact Fd|]. split; [exact Vd|]. rewrite Vd.
+    replace (RN x * 1000000 - IZR n)%R with ((RN x - x) * 1000000)%R by (unfold x; field).
+    rewrite Rabs_mult, (Rabs_pos_eq 1000000) by lra. nra.
+Qed.
+
+(* ------------------------------------------------------------------------- *)
+(* timedelta(seconds=x): any float within 31/64 us of an integer microsecond count k
+   gives k *)
+
+Lemma td_check_ok : forall k, - max_days * us_per_day <= k < (max_days + 1) * us_per_day ->
+  td_check k = Ok k.
+Proof.
+  intros k H. unfold td_check. cbv zeta.
+  assert (E : (- max_days <=? k / us_per_day) && (k / us_per_day <=? max_days) = true).
+  { apply andb_true_iff. split; apply Z.leb_le; unfold max_days, us_per_day in *.
+    - apply Z.div_le_lower_bound; lia.
+    - assert (k / 86400000000 < 999999999 + 1) by (apply Z.div_lt_upper_bound; lia). lia. }
+  rewrite E. reflexivity.
+Qed.
+
+Lemma IZR_near_eq : forall a b : Z, (Rabs (IZR a - IZR b) <= 63 / 128)%R -> a = b.
+Proof.
+  intros a b H. rewrite <- minus_IZR in H. apply Rabs_le_inv in H.
+  assert (-1 < a - b < 1) by (split; apply lt_IZR; simpl; lra). lia.
+Qed.
+
+Theorem td_near : forall x k, fin x ->
+  - max_days * us_per_day <= k < (max_days + 1) * us_per_day ->
+  (Rabs (FR x * 1000000 - IZR k) <= 31 / 64)%R ->
+  td_us_of_float_seconds x = Ok k.
+Proof.
+  intros x k Fx Hr Hn. set (X := FR x) in *.
+  assert (TB : (Rabs X < IZR (2 ^ 53))%R).
+  { assert (A : (Rabs (X * 1000000) <= Rabs (IZR k) + 31 / 64)%R).
+    { replace (X * 1000000)%R with ((X * 1000000 - IZR k) + IZR k)%R by ring.
+      eapply Rle_trans; [apply Rabs_triang|]. lra. }
+    rewrite Rabs_mult, (Rabs_pos_eq 1000000) in A by lra.
+    assert (N : (Rabs (IZR k) <= 86400000000000000000)%R).
+    { rewrite <- abs_IZR. apply IZR_le. unfold max_days, us_per_day in Hr. lia. }
+    change (IZR (2 ^ 53)) with 9007199254740992%R. lra. }
+  destruct (modf_spec x Fx TB) as (fp & Em & Ffp & Vfp). fold X in Em, Vfp.
+  set (ip := Ztrunc X) in *.
+  destruct (Ztrunc_bounds X) as (_ & B2 & _). fold ip in B2.
+  unfold td_us_of_float_seconds. rewrite Em. cbn [bind fst snd].
+  assert (ZZ : (zero =? zero)%float = true).
+  { rewrite (feqb_spec _ _ zero_fin zero_fin). apply Req_bool_true. reflexivity. }
+  rewrite (feqb_spec _ _ Ffp zero_fin), Vfp, zero_val.
+  destruct (Req_bool_spec (X - IZR ip) 0) as [H0|H0].
+  - (* x is integral *)
+    cbn [bind fst snd]. rewrite ZZ. cbn [bind].
+    assert (ip * us_per_s = k).
+    { apply IZR_near_eq. unfold us_per_s. rewrite mult_IZR.
+      replace (IZR ip) with X by lra. simpl. lra. }
+    rewrite H. now apply td_check_ok.
+  - destruct (frac_scaled_near X ip k fp Ffp Vfp B2 Hn) as (Hj & _ & _ & F2 & N2).
+    set (j := k - ip * 1000000) in *.
+    set (m0 := (f1e6 * fp)%float) in *. set (M0 := FR m0) in *.
+    assert (MB : (Rabs M0 < IZR (2 ^ 53))%R).
+    { replace M0 with ((M0 - IZR j) + IZR j)%R by ring. eapply Rle_lt_trans; [apply Rabs_triang|].
+      assert (Rabs (IZR j) <= 1000000)%R by (rewrite <- abs_IZR; apply IZR_le; exact Hj).
+      change (IZR (2 ^ 53)) with 9007199254740992%R. lra. }
+    destruct (modf_spec m0 F2 MB) as (fp2 & Em2 & Ffp2 & Vfp2). fold M0 in Em2, Vfp2.
+    set (ip2 := Ztrunc M0) in *.
+    destruct (Ztrunc_bounds M0) as (_ & C2 & _). fold ip2 in C2.
+    rewrite Em2. cbn [bind fst snd].
+    rewrite (feqb_spec _ _ Ffp2 zero_fin), Vfp2, zero_val.
+    destruct (Req_bool_spec (M0 - IZR ip2) 0) as [H1|H1].
+    + cbn [bind].
+      assert (ip2 = j) by (apply IZR_near_eq; replace (IZR ip2) with M0 by lra; exact N2).
+      replace (ip * us_per_s + ip2) with k by (unfold us_per_s, j in *; lia).
+      now apply td_check_ok.
+    + set (w := j - ip2).
+      assert (Nw : (Rabs (FR fp2 - IZR w) <= 63 / 128)%R).
+      { rewrite Vfp2. unfold w. rewrite minus_IZR.
+        replace (M0 - IZR ip2 - (IZR j - IZR ip2))%R with (M0 - IZR j)%R by ring. exact N2. }
+      assert (Hw : Z.abs w < 2).
+      { apply lt_IZR. rewrite abs_IZR.
+        replace (IZR w) with ((M0 - IZR ip2) - (FR fp2 - IZR w))%R by (rewrite Vfp2; ring).
+        eapply Rle_lt_trans; [apply Rabs_triang|]. rewrite Rabs_Ropp. simpl. lra. }
+      rewrite (c_round_near fp2 w Ffp2 ltac:(lia) Nw).
+      destruct (of_Z_spec w ltac:(lia)) as [Fw Vw].
+      assert (B : (Rabs (RN (FR (of_Z w) - FR fp2)) <= 63 / 128)%R).
+      { rewrite Vw. apply abs_round_le_generic; [apply FLT_exp_valid; reflexivity | apply valid_rnd_N | apply fmt_63_128 |].
+        rewrite <- Rabs_Ropp. replace (- (IZR w - FR fp2))%R with (FR fp2 - IZR w)%R by ring. exact Nw. }
+      destruct (fsub_spec (of_Z w) fp2 Fw Ffp2) as [Fd Vd].
+      { eapply Rle_lt_trans; [exact B|]. eapply Rlt_trans; [|apply (bpow_lt radix2 0 64); lia]. simpl. lra. }
+      destruct (fabs_spec _ Fd) as [Fa Va].
+      rewrite (feqb_spec _ _ Fa fhalf_fin), Va, Vd, fhalf_val.
+      rewrite Req_bool_false by lra.
+      rewrite (int_of_float_int _ _ Fw Vw). cbn [bind].
+      replace (ip * us_per_s + ip2 + w) with k by (unfold us_per_s, w, j in *; lia).
+      now apply td_check_ok.
+Qed.
+
+(* ------------------------------------------------------------------------- *)
+(* the two round trips through the correctly rounded quotient by 10**6 *)
+
+Theorem fromtimestamp_decode : forall n, Z.abs n < 2 ^ 33 * 1000000 ->
+  bind (fdiv_int_int n 1000000) fromtimestamp_us = Ok n.
+Proof.
+  intros n Hn. destruct (div_1e6_near n Hn) as (t & E & Ft & _ & N). rewrite E. cbn [bind].
+  apply fromtimestamp_near; [exact Ft| |exact N]. unfold min_sec, max_sec. lia.
+Qed.
+
+Theorem td_roundtrip : forall k, Z.abs k < 2 ^ 33 * 1000000 ->
+  bind (total_seconds_of_us k) td_us_of_float_seconds = Ok k.
+Proof.
+  intros k Hk. unfold total_seconds_of_us, us_per_s.
+  destruct (div_1e6_near k Hk) as (t & E & Ft & _ & N). rewrite E. cbn [bind].
+  apply td_near; [exact Ft| |exact N]. unfold max_days, us_per_day. lia.
+Qed.
+
+(* total_seconds() is a finite float for these durations *)
+Theorem total_seconds_finite : forall k, Z.abs k < 2 ^ 33 * 1000000 ->
+  exists f, total_seconds_of_us k = Ok f /\ fin f /\ FR f = RN (IZR k / 1000000).
+Proof.
+  intros k Hk. destruct (div_1e6_near k Hk) as (t & E & Ft & V & _). exists t. now repeat split.
+Qed.
+
+(* ------------------------------------------------------------------------- *)
+(* x.timestamp() * 1000000 : distance of the float window parameter from the instant *)
+
+Lemma param_err_aux : forall u e, 0 <= u < 2 ^ e -> 40 <= e <= 52 ->
+  exists p, sqlite_float_param u = Ok p /\ fin p /\
+    (Rabs (FR p - IZR u) <= bpow radix2 (e - 19 - 54) * 1000000 + bpow radix2 (e - 54))%R.
+Proof.
+  intros u e Hu He.
+  assert (P52 : 2 ^ e <= 2 ^ 52) by (apply Z.pow_le_mono_r; lia).
+  assert (Hn : Z.abs u < 2 ^ 33 * 1000000) by (change (2 ^ 52) with 4503599627370496 in P52; lia).
+  unfold sqlite_float_param, timestamp_float_of_us, us_per_s.
+  destruct (div_1e6_near u Hn) as (t & E & Ft & V & _). rewrite E. cbn [bind].
+  eexists. split; [reflexivity|].
+  set (x := (IZR u / 1000000)%R) in *.
+  assert (U0 : (0 <= IZR u)%R) by (apply IZR_le; lia).
+  assert (U1 : (IZR u <= bpow radix2 e - 1)%R).
+  { rewrite <- IZR_Zpower by lia. rewrite <- minus_IZR. apply IZR_le. change (Zpower radix2 e) with (2 ^ e). lia. }
+  assert (Xb : (Rabs x < bpow radix2 (e - 19))%R).
+  { unfold x. rewrite Rabs_pos_eq by (apply Rmult_le_pos; lra).
+    assert (bpow radix2 e = bpow radix2 19 * bpow radix2 (e - 19))%R
+      by (rewrite <- bpow_plus; f_equal; lia).
+    assert (0 < bpow radix2 (e - 19))%R by apply bpow_gt_0.
+    change (bpow radix2 19) with (IZR (Zpower_pos 2 19)) in H. simpl in H. nra. }
+  pose proof (RN_err x (e - 19) ltac:(lia) Xb) as E1.
+  set (d1 := bpow radix2 (e - 19 - 54)) in *.
+  assert (D1 : (0 < d1 <= bpow radix2 (-21))%R) by (split; [apply bpow_gt_0 | apply bpow_le; lia]).
+  pose proof bpow_m21_scaled as M.
+  set (y := (RN x * 1000000)%R).
+  assert (Yu : (Rabs (y - IZR u) <= d1 * 1000000)%R).
+  { replace (y - IZR u)%R with ((RN x - x) * 1000000)%R by (unfold y, x; field).
+    rewrite Rabs_mult, (Rabs_pos_eq 1000000) by lra. nra. }
+  assert (Yb : (Rabs y < bpow radix2 e)%R).
+  { replace y with ((y - IZR u) + IZR u)%R by ring. eapply Rle_lt_trans; [apply Rabs_triang|].
+    rewrite (Rabs_pos_eq (IZR u)) by lra. lra. }
+  pose proof (RN_err y e ltac:(lia) Yb) as E2.
+  destruct (fmul_spec t f1e6 Ft f1e6_fin) as [Fp Vp].
+  { rewrite V, f1e6_val. fold y. replace (RN y) with ((RN y - y) + y)%R by ring.
+    eapply Rle_lt_trans; [apply Rabs_triang|].
+    assert (bpow radix2 (e - 54) < bpow radix2 e)%R by (apply bpow_lt; lia).
+    assert (bpow radix2 e <= bpow radix2 52)%R by (apply bpow_le; lia).
+    assert (2 * bpow radix2 52 < bpow radix2 64)%R.
+    { change (2 * bpow radix2 52)%R with (bpow radix2 53). apply bpow_lt. lia. }
+    lra. }
+  rewrite V, f1e6_val in Vp. fold y in Vp. split; [exact Fp|]. rewrite Vp.
+  replace (RN y - IZR u)%R with ((RN y - y) + (y - IZR u))%R by ring.
+  eapply Rle_trans; [apply Rabs_triang|]. lra.
+Qed.
+
+Theorem sqlite_param_error : forall u, 0 <= u < 2 ^ 52 ->
+  exists p, sqlite_float_param u = Ok p /\ fin p /\ (Rabs (FR p - IZR u) <= 3 / 4)%R.
+Proof.
+  intros u Hu. destruct (param_err_aux u 52 Hu ltac:(lia)) as (p & E & F & B).
+  exists p. split; [exact E|]. split; [exact F|]. eapply Rle_trans; [exact B|].
+  change (52 - 19 - 54) with (-21). pose proof bpow_m21_scaled.
+  change (bpow radix2 (52 - 54)) with (/ 4)%R. lra.
+Qed.
+
+(* before 2041-05-10 (2^51 us) the parameter is within 3/8 us *)
+Theorem sqlite_param_error_51 : forall u, 0 <= u < 2 ^ 51 ->
+  exists p, sqlite_float_param u = Ok p /\ fin p /\ (Rabs (FR p - IZR u) <= 3 / 8)%R.
+Proof.
+  intros u Hu. destruct (param_err_aux u 51 Hu ltac:(lia)) as (p & E & F & B).
+  exists p. split; [exact E|]. split; [exact F|]. eapply Rle_trans; [exact B|].
+  change (51 - 19 - 54) with (-22).
+  assert (bpow radix2 (-22) * 1000000 <= 1 / 4)%R.
+  { change (bpow radix2 (-22)) with (/ IZR (Zpower_pos 2 22))%R. simpl. lra. }
+  change (bpow radix2 (51 - 54)) with (/ 8)%R. lra.
+Qed.
